@@ -81,6 +81,15 @@ func (i *Interpreter) SetScope(scope context.Scope) {
 }
 
 func (i *Interpreter) restart() error {
+	// return(restart) reaches here without passing the restart statement's check,
+	// so the Fastly restart count limit must be enforced here as well
+	if i.ctx.Restarts+1 > limitations.MaxVarnishRestarts {
+		return exception.Runtime(
+			nil,
+			"Max restart limit exceeded. Requests are limited to %d restarts",
+			limitations.MaxVarnishRestarts,
+		)
+	}
 	i.ctx.Restarts++
 	i.Debugger.Message(fmt.Sprintf("Restarted (%d) time", i.ctx.Restarts))
 	i.ctx.BackendRequest = nil
